@@ -96,7 +96,7 @@ MUTATIONS += [
     ("handle-call-drops-kwargs", ["C01"], P, "        return obj(*args, **dict(kwargs))", "        return obj(*args)"),
     ("box-tuple-not-recursive", ["C01", "C03"], P, "            return consts.LABEL_TUPLE, tuple(self._box(item) for item in obj)",
      "            return consts.LABEL_TUPLE, tuple((consts.LABEL_VALUE, item) if brine.dumpable(item) else self._box(list(item) if type(item) is tuple else item) for item in obj)"),
-    ("unbox-tuple-as-list", ["C01", "C03"], P, "            return tuple(self._unbox(item) for item in value)", "            return list(self._unbox(item) for item in value)"),
+    ("unbox-tuple-as-list", ["C01", "C03"], P, "            return tuple(self._unbox(item) for item in self._resolve_local_refs(value))", "            return list(self._unbox(item) for item in self._resolve_local_refs(value))"),
     ("netref-call-drops-kwargs", ["C01"], N, "            kwargs = tuple(kwargs.items())\n            return syncreq(_self, consts.HANDLE_CALL, args, kwargs)",
      "            kwargs = ()\n            return syncreq(_self, consts.HANDLE_CALL, args, kwargs)"),
     ("netref-callattr-kwargs-values-only", ["C02"], N, "            kwargs = tuple(kwargs.items())\n            return syncreq(_self, consts.HANDLE_CALLATTR, name, args, kwargs)",
@@ -106,4 +106,16 @@ MUTATIONS += [
     ("vinegar-everything-generic", ["C01", "C09"], V, "    elif modname == exceptions_module.__name__:\n        cls = getattr(exceptions_module, clsname, None)",
      "    elif modname == exceptions_module.__name__ and clsname not in ('KeyError', 'IndexError'):\n        cls = getattr(exceptions_module, clsname, None)"),
     ("vinegar-args-first-only", ["C01", "C09"], V, "    exc.args = args\n", "    exc.args = args[:1]\n"),
+]
+
+MUTATIONS += [
+    # ---- C03: by value / by reference / identity
+    ("box-isinstance-tuple", ["C03"], P, "        if type(obj) is tuple:\n            return consts.LABEL_TUPLE",
+     "        if isinstance(obj, tuple):\n            return consts.LABEL_TUPLE"),
+    ("local-ref-returns-new-proxy", ["C03", "C01"], P, "        elif isinstance(obj, netref.BaseNetref) and obj.____conn__ is self:\n            return consts.LABEL_LOCAL_REF, obj.____id_pack__",
+     "        elif False:\n            return consts.LABEL_LOCAL_REF, obj.____id_pack__"),
+    ("proxy-cache-not-consulted", ["C03", "C10"], P, "            if id_pack in self._proxy_cache:", "            if False:"),
+    ("simple-types-gain-list", ["C03", "C04"], B, "simple_types = frozenset([type(None), int,", "simple_types = frozenset([list, type(None), int,"),
+    ("unbox-idpack-without-instance-id", ["C03"], P, "            id_pack = (str(value[0]), value[1], value[2])  # so value is a id_pack",
+     "            id_pack = (str(value[0]), value[1], value[2] and 1)  # so value is a id_pack"),
 ]
